@@ -162,7 +162,7 @@ def plan_c04(tier, seed):
         j = wf("C04", g, i, 1, m, "func", oracles=o, events_dep=False, tier=tier, race=True, id=f"C04-mem-{g}-i{i}-m{m}")
         j["no_race_report"] = True
         jobs.append(with_delay_fallback(j, 1 if tier == "quick" else 2))
-    return {"level": "model_checking", "native": True, "race_too": True, "stages": [lambda ctx, prev: jobs, maporder_stage("C04", o, tier)],
+    return {"level": "model_checking", "native": True, "race_too": True, "rev_map_order": ("C04-g6b-i2-b1-m2", "C04-g8g-i2", "C04-g7c-i2-b1-m1", "C04-g8-i2", "C04-g9-"), "stages": [lambda ctx, prev: jobs, maporder_stage("C04", o, tier)],
             "rule": "every Mazurkiewicz trace (DPOR + sleep sets) of each scenario x configuration; delay bound 2 where the search does not close; MAPORDER pass: each map-range site forced to every other order on the default schedule with <= 1 delay; memory-level pass: some scenarios again on the race-instrumented build, where map operations and accesses to mutable struct fields are scheduling points too",
             "assumptions": BASE_ASSUMPTIONS + ["multi-in-port processes receive equally long streams; at most one process without out-ports"]}
 
@@ -273,7 +273,7 @@ def plan_c05(tier, seed):
                 jobs.append(nj)
         return jobs
     iof = opfault_stages("C05", ["nohang", "c05", "c04"], tier, [("g3", 1, 1, "cmd", ""), ("g3", 1, 1, "func", ""), ("g7", 1, 1, "cmd", ""), ("g2", 1, 1, "cmd", "subdir"), ("g11", 1, 1, "cmd", "")] + ([] if tier == "quick" else [("g4", 1, 2, "cmd", ""), ("g14a", 1, 1, "cmd", ""), ("g8", 1, 1, "func", "")]))
-    return {"level": "model_checking", "native": True, "race_too": True, "stages": [lambda ctx, prev: jobs, maporder_stage("C05", o, tier, graphs=("g8f", "g8g"), per_job=True)] + iof + [stream_first, stream_again],
+    return {"level": "model_checking", "native": True, "race_too": True, "rev_map_order": ("C05-g10b-i1", "C05-g7c", "C05-g9-", "C05-g10-i1-b1-m2", "C05-g8g-i2", "C05-g13-i1-b1-m2"), "stages": [lambda ctx, prev: jobs, maporder_stage("C05", o, tier, graphs=("g8f", "g8g"), per_job=True)] + iof + [stream_first, stream_again],
             "rule": "every Mazurkiewicz trace of each scenario with start/end/return events mutually dependent (every order not forced by happens-before); at the state where the main thread returns from Run: all started tasks ended, all reference outputs final, no temp dir / FIFO; no deadlock state; + a rename that fails with EXDEV (absolute destination on another device): stopping is fine, returning is not; every other map-iteration order forced for the parameter fan-out scenarios; single injected I/O error: the n-th file-system operation of the run fails with EIO, for every n (default schedule; thorough: + 1 delay) - stop, or return with everything in place; streaming producer with an ordinary second output: run, then run again in place - no FIFO / temp dir left when Run returns; memory-level pass: some scenarios again on the race-instrumented build, where map operations and accesses to mutable struct fields are scheduling points too",
             "assumptions": BASE_ASSUMPTIONS}
 
@@ -328,7 +328,7 @@ def plan_c06(tier, seed):
         jobs.append(with_delay_fallback(wf("C06", "g3", 3, 1, 2, oracles=o, tier=tier)))
         jobs.append(with_delay_fallback(wf("C06", "g4", 2, 1, 2, oracles=o, tier=tier)))
         jobs.append(with_delay_fallback(wf("C06", "g9", 2, 1, 2, oracles=o, tier=tier)))
-    return {"level": "model_checking", "stages": [lambda ctx, prev: jobs],
+    return {"level": "model_checking", "rev_map_order": ("C06-g13-i1-b1-m2", "C06-g2-i3-b1-m2", "C06-tasks-i1-b1-m2-func-dpor-c12"), "stages": [lambda ctx, prev: jobs],
             "rule": "all multisets of CoresPerTask in 1..max over k ready tasks (k<=4 on the narrow-seam drivers NewTask+Task.Execute and Inc/DecConcurrentTasks, k=2..3 sibling processes in whole workflows), every Mazurkiewicz trace with start/end events mutually dependent; invariant on every prefix of every explored event order: sum of cores of started-not-ended tasks <= maxConcurrentTasks",
             "assumptions": BASE_ASSUMPTIONS}
 
@@ -384,7 +384,7 @@ def plan_c07(tier, seed):
     # a workflow WITHOUT any slot (maxConcurrentTasks = 0): every process that asks for a core is oversize
     for g, cores in (("g2", [1]), ("g3", [1, 1]), ("g3", [0, 1]), ("g13", [1, 2])):
         jobs.append(wf("C07", g, 1, 1, 0, oracles=["nohang", "c07-oversize"], tier=tier, cores=cores, events_dep=False, id=f"C07-oversize-{g}-m0-c{''.join(map(str, cores))}"))
-    return {"level": "model_checking", "stages": [lambda ctx, prev: jobs],
+    return {"level": "model_checking", "rev_map_order": ("C07-g13-free-m2", "C07-tasks-free-m2-c12", "C07-g2-barrier-2items"), "stages": [lambda ctx, prev: jobs],
             "rule": "all multisets of CoresPerTask over k ready tasks (+ tasks with CoresPerTask = 0 among them) x every interleaving of the token-by-token acquisition (DPOR closed): no deadlock state; barrier variants: k tasks with sum(cores) <= max rendezvous inside their bodies, so a library that serialises them deadlocks; oversize CoresPerTask (also in a workflow with maxConcurrentTasks = 0): exit != 0 and no task of that process starts, in every schedule; environment deviation: the output of a queued task is created by an outside actor at every possible moment -> still no deadlock state",
             "assumptions": BASE_ASSUMPTIONS}
 
@@ -430,7 +430,7 @@ def plan_c08(tier, seed):
         j.pop("_native", None)
         jobs.append(with_delay_fallback(j, 1))
     iof = opfault_stages("C08", ["nohang", "c08"], tier, [("g2", 2, 2, "func", "recorder"), ("g2", 3, 2, "cmd", "recorder")])
-    return {"level": "model_checking", "native": True, "race_too": True, "stages": [lambda ctx, prev: jobs] + iof,
+    return {"level": "model_checking", "native": True, "race_too": True, "rev_map_order": ("two-out-ports", "C08-g5b-i1-b1-m2-func", "C08-g2-i2-m2-two-receivers"), "stages": [lambda ctx, prev: jobs] + iof,
             "rule": "(+ single injected I/O error at every file-system operation of two scenarios; + a lagging file system: the n-th look at an existing output answers ENOENT, n <= 3, every schedule) every Mazurkiewicz trace (task completion order is just scheduling); a recorder process reads the observed out-port; emitted sequence == reference arrival order (single upstream) / per-upstream subsequences keep their order (fan-in); streaming out-port: 2 items in flight through real FIFOs, order noted by a pass-through process (<= 1 delay); joined in-port fed with two sub-stream carriers closed in either order; memory-level pass: some scenarios again on the race-instrumented build, where map operations and accesses to mutable struct fields are scheduling points too",
             "assumptions": BASE_ASSUMPTIONS}
 
@@ -473,10 +473,35 @@ def fit_budgets(ctx, jobs):
     return jobs
 
 
+def rev_order_clones(plan, jobs):
+    """reversed range-over-map order EVERYWHERE (force_all = 1) for the first-stage scenarios a plan names
+    in "rev_map_order" (substrings of job ids): a cheap deviation (delay bound 1), one clone per scenario"""
+    out = []
+    pats = plan.get("rev_map_order") or ()
+    for j in jobs:
+        if "scen" not in j or j.get("force_order") or j.get("force_all", -1) != -1 or j.get("_list") or j.get("_snap") or j.get("_prefix") or j.get("_full"):
+            continue
+        if any(pt in j["id"] for pt in pats):
+            nj = copy.deepcopy(j)
+            for kk in ("base", "_fallback_delay", "_native"):
+                nj.pop(kk, None)
+            nj["id"] = j["id"] + "-mo1"
+            nj["force_all"] = 1
+            if nj["mode"] == "dpor":
+                nj["mode"] = "delay"
+                nj["delay"] = 1
+            nj["budget"] = min(nj.get("budget", 30), 20)
+            out.append(nj)
+    return out
+
+
 def execute(plan, ctx):
     results = []
-    for stage in plan["stages"]:
-        jobs = fit_budgets(ctx, stage(ctx, results))
+    for si, stage in enumerate(plan["stages"]):
+        jobs = stage(ctx, results)
+        if si == 0:
+            jobs = jobs + rev_order_clones(plan, jobs)
+        jobs = fit_budgets(ctx, jobs)
         rs = run_pool(ctx, jobs)
         # delay-bounded fallback for searches that did not close in their budget
         fb = []
@@ -632,7 +657,7 @@ def finish(prop, tier, seed, plan, results, known, classify, wall, build_s, writ
         "traces_validated_against_impl": plan.get("validated", 0),
         "evaluations": evals,
         "distinct_nontrivial": plan.get("distinct_nontrivial_fn", lambda rs: orders + outcomes + crash_states)(results),
-        "rule": plan["rule"] + ("" if plan.get("distinct_nontrivial_fn") else " | distinct_nontrivial counts distinct (terminal outcome + event order + crash state) classes summed over scenarios"),
+        "rule": plan["rule"] + (" + the scenarios whose ids contain one of %s again with EVERY range-over-map site in the reverse of its default order (delay bound 1; jobs '-mo1')" % (list(plan["rev_map_order"]),) if plan.get("rev_map_order") else "") + ("" if plan.get("distinct_nontrivial_fn") else " | distinct_nontrivial counts distinct (terminal outcome + event order + crash state) classes summed over scenarios"),
         "samples": samples or [{"note": "no sample"}],
         # exhaustive: every scenario's search ran out of alternatives WITHOUT a delay bound
         "exhaustive": bool(all_closed and not errors and not any((r.get("stats") or {}).get("mode") == "delay-bounded" for r in results)),
@@ -719,7 +744,7 @@ def plan_c09(tier, seed):
     for extra in ("notdir", "longname"):
         for kind in ("cmd", "func"):
             jobs.append(wf("C09", "g2", 1, 1, 1, kind, oracles=["nohang", "c09-unformed"], tier=tier, events_dep=False, extra=extra, id=f"C09-g2-{extra}-{kind}"))
-    return {"level": "fault_enumeration", "stages": [lambda ctx, prev: jobs],
+    return {"level": "fault_enumeration", "rev_map_order": ("C09-g7-i1-m2-cmd-p-in0.txt-exit-after", "C09-g7-i1-m2-cmd-p-in0.txt-missing", "C09-g7-i1-m2-func-p-in0.txt-panic-mid", "C09-g3-i2-m2-cmd-p-in0.txt-exit-mid"), "stages": [lambda ctx, prev: jobs],
             "rule": "every choice of failing task x failure kind {exit before / mid / after writing, killed, declared output missing, run-time panic inside a Go function} + tasks that cannot be formed {empty parameter value, invalid output path (a space, a glob character, a dollar sign, a non-ASCII letter, a non-ASCII digit), missing tag in the command, missing tag / unknown parameter in the output-path pattern, an output below a regular file, an over-long output name}, each under every Mazurkiewicz trace of the concurrently running rest (DPOR closed, delay bound 2 otherwise); non-trivial = distinct (fault case, terminal outcome) pairs in which the fault changed the outcome",
             "assumptions": BASE_ASSUMPTIONS + ["failures are injected at the exec seam (command result) or raised by the Go function through scipipe.Failf"]}
 
